@@ -55,10 +55,18 @@ def deabs(v):
 
 
 def node_ids(spec, prefix=""):
-    """Predicted tawazi ids of the call sites: `f`, `f<<1>>`, ... in build order."""
-    seen = {}
+    """Predicted tawazi ids of the call sites: `f`, `f<<1>>`, ... in build order.  With spec["nest"] a block of consecutive call
+    sites lives in an inner DAG: their ids are `<inner>.f`, `<inner>.f<<1>>` (numbered inside the inner DAG), the others are numbered
+    among the outer call sites only."""
+    nest = spec.get("nest")
+    seen, seen_in = {}, {}
     out = []
-    for nd in spec["nodes"]:
+    for i, nd in enumerate(spec["nodes"]):
+        if nest and nest["first"] <= i <= nest["last"]:
+            k = seen_in.get(nd["fn"], 0)
+            seen_in[nd["fn"]] = k + 1
+            out.append(prefix + nest["name"] + "." + (nd["fn"] if k == 0 else "%s<<%d>>" % (nd["fn"], k)))
+            continue
         k = seen.get(nd["fn"], 0)
         seen[nd["fn"]] = k + 1
         out.append(prefix + (nd["fn"] if k == 0 else "%s<<%d>>" % (nd["fn"], k)))
@@ -79,7 +87,115 @@ def arg_src(a):
     raise AssertionError(a)
 
 
+def nestable(spec, first, last):
+    """May the call sites first..last be moved into an inner DAG?  (plain functions, no unpacking in or around the block)"""
+    for i in range(first, last + 1):
+        fs = spec["fns"][spec["nodes"][i]["fn"]]
+        if fs.get("unpack_to") or fs.get("setup") or fs.get("debug"):
+            return False
+    for nd in spec["nodes"]:
+        for a in list(nd.get("args", [])) + list(nd.get("kwargs", {}).values()) + ([nd["active"]] if nd.get("active") else []):
+            if a[0] == "u" and (first <= a[1] <= last):
+                return False
+    for i in range(first, last + 1):
+        nd = spec["nodes"][i]
+        for a in list(nd.get("args", [])) + list(nd.get("kwargs", {}).values()) + ([nd["active"]] if nd.get("active") else []):
+            if a[0] == "u":
+                return False
+    return True
+
+
+def _site_line(spec, i, nd, src_of):
+    parts = [src_of(a) for a in nd.get("args", [])]
+    parts += ["%s=%s" % (k, src_of(a)) for k, a in nd.get("kwargs", {}).items()]
+    if nd.get("active") is not None:
+        parts.append("twz_active=%s" % src_of(nd["active"]))
+    if nd.get("tag") is not None:
+        parts.append("twz_tag=%r" % (nd["tag"],))
+    unp = spec["fns"][nd["fn"]].get("unpack_to")
+    if unp:
+        lhs = ", ".join("v%d_%d" % (i, j) for j in range(unp)) + ("," if unp == 1 else "")
+    else:
+        lhs = "v%d" % i
+    return "    %s = c%d(%s)" % (lhs, i, ", ".join(parts))
+
+
+def render_nested(spec):
+    """Source with the block spec["nest"] = {name, first, last} written as an inner DAG that the describing function calls.
+    Returns (text, {site: line number})."""
+    nest = spec["nest"]
+    a0, b0, iname = nest["first"], nest["last"], nest["name"]
+    ext, ext_idx = [], {}
+
+    def inner_src(a):
+        if (a[0] == "n" and a[1] < a0) or a[0] == "p":
+            key = json.dumps(a)
+            if key not in ext_idx:
+                ext_idx[key] = len(ext)
+                ext.append(a)
+            return "e%d" % ext_idx[key]
+        return arg_src(a)
+
+    body = [_site_line(spec, i, spec["nodes"][i], inner_src) for i in range(a0, b0 + 1)]
+    used = set()
+    for i, nd in enumerate(spec["nodes"]):
+        if i > b0:
+            for x in list(nd.get("args", [])) + list(nd.get("kwargs", {}).values()) + ([nd["active"]] if nd.get("active") else []):
+                if x[0] == "n" and a0 <= x[1] <= b0:
+                    used.add(x[1])
+    kind, items = spec["ret"]
+    for x in (items.values() if isinstance(items, dict) else items):
+        if x[0] == "n" and a0 <= x[1] <= b0:
+            used.add(x[1])
+    outs = sorted(used) or list(range(a0, b0 + 1))
+    lines = ["def %s(%s):" % (iname, ", ".join("e%d" % q for q in range(len(ext))))]
+    line_of = {}
+    for i, ln in zip(range(a0, b0 + 1), body):
+        lines.append(ln)
+        line_of[i] = len(lines)
+    lines.append("    return v%d" % outs[0] if len(outs) == 1 else "    return (%s)" % "".join("v%d, " % o for o in outs))
+    lines.append("%s = __mkdag(%s)" % (iname, iname))
+    params = spec.get("params", [])
+    defaults = spec.get("defaults", {})
+    sig = ", ".join(p if p not in defaults else "%s=%r" % (p, defaults[p]) for p in params)
+    lines.append("def %s(%s):" % (spec["name"], sig))
+    for i, nd in enumerate(spec["nodes"]):
+        if i == a0:
+            lhs = "v%d" % outs[0] if len(outs) == 1 else "".join("v%d, " % o for o in outs)
+            lines.append("    %s = %s(%s)" % (lhs, iname, ", ".join(arg_src(x) for x in ext)))
+        if a0 <= i <= b0:
+            continue
+        lines.append(_site_line(spec, i, nd, arg_src))
+        line_of[i] = len(lines)
+    lines.append(_ret_line(spec))
+    return "\n".join(lines) + "\n", line_of
+
+
+def _ret_line(spec):
+    kind, items = spec["ret"]
+    if kind == "none":
+        return "    return None"
+    if kind == "single":
+        return "    return %s" % arg_src(items[0])
+    if kind == "tuple":
+        return "    return (%s)" % "".join(arg_src(a) + ", " for a in items)
+    if kind == "list":
+        return "    return [%s]" % ", ".join(arg_src(a) for a in items)
+    if kind == "dict":
+        return "    return {%s}" % ", ".join("%r: %s" % (k, arg_src(a)) for k, a in items.items())
+    raise AssertionError(kind)
+
+
+def site_lines(spec):
+    """{site: line number in the compiled source} (one call site per line)."""
+    if spec.get("nest"):
+        return render_nested(spec)[1]
+    return {i: i + 2 for i in range(len(spec["nodes"]))}
+
+
 def render(spec):
+    if spec.get("nest"):
+        return render_nested(spec)[0]
     params = spec.get("params", [])
     defaults = spec.get("defaults", {})
     sig = ", ".join(p if p not in defaults else "%s=%r" % (p, defaults[p]) for p in params)
@@ -255,6 +371,8 @@ def build_tawazi(spec, plain=None, dag_kwargs=None, extra_env=None, wrap_site=No
         xns[name] = declare_xn(plain[name], kw, name, salt=spec.get("salt", spec.get("name", "")) + str(len(spec["nodes"])))
     env = {"c%d" % i: xns[nd["fn"]] for i, nd in enumerate(spec["nodes"])}
     env.update(named_constants())
+    if spec.get("nest"):
+        env["__mkdag"] = lambda f: declare_dag(f, dict(max_concurrency=spec["nest"].get("mc", 1)), spec["nest"]["name"], salt=str(len(spec["nodes"])))
     if extra_env:
         env.update(extra_env)
     for i, w in (wrap_site or {}).items():
@@ -285,6 +403,7 @@ def run_reference(spec, args, plain, enabled=None, env_values=None, ref_faults=(
     """
     info = RefInfo()
     env = dict(named_constants())
+    env["__mkdag"] = lambda f: f
     env_values = env_values or {}
 
     def mk(i, nd):
